@@ -98,6 +98,7 @@ type interpreter struct {
 	onceDone           map[*value]bool
 	closedGlobal       map[chan value]bool
 	zeroBase           map[string]*value
+	stdStreams         map[string]*value // os.Stdin/Stdout/Stderr placeholders
 	depth              int
 }
 
@@ -497,6 +498,28 @@ func call(i *interpreter, caller *frame, callpos token.Pos, fn value, args []val
 	panic(engineBug{fmt.Sprintf("cannot call %T", fn)})
 }
 
+// forbidden records that the path reached something C10 excludes (the
+// engine has no model for file, network or process primitives; reaching one
+// is a counterexample) and ends the path.
+func (i *interpreter) forbidden(name, why string, caller *frame) {
+	p := i.path
+	p.forbidden = append(p.forbidden, name)
+	func() {
+		defer func() { recover() }()
+		r, mv := p.sess.CheckWith(nil, p.inputTerms())
+		if r == Sat {
+			c := p.mkCand("C10.forbidden", "", mv)
+			c.PanicMsg = "reached " + name + " (" + why + ")"
+			if caller != nil {
+				c.PanicMsg += " from " + caller.fn.String()
+			}
+			p.cands = append(p.cands, c)
+		}
+	}()
+	p.sites["C10.forbidden"]++
+	p.abort(abDone, "forbidden call: "+name)
+}
+
 func loc(fset *token.FileSet, pos token.Pos) string {
 	if pos == token.NoPos {
 		return ""
@@ -531,24 +554,7 @@ func callSSA(i *interpreter, caller *frame, callpos token.Pos, fn *ssa.Function,
 		}
 		if fn.Pkg != nil {
 			if why := forbiddenPkg(fn.Pkg.Pkg.Path()); why != "" {
-				// C10: the engine has no model for file, network or process
-				// primitives; reaching one is a counterexample.
-				p := i.path
-				p.forbidden = append(p.forbidden, name)
-				func() {
-					defer func() { recover() }()
-					r, mv := p.sess.CheckWith(nil, p.inputTerms())
-					if r == Sat {
-						c := p.mkCand("C10.forbidden", "", mv)
-						c.PanicMsg = "reached " + name + " (" + why + ")"
-						if caller != nil {
-							c.PanicMsg += " from " + caller.fn.String()
-						}
-						p.cands = append(p.cands, c)
-					}
-				}()
-				p.sites["C10.forbidden"]++
-				p.abort(abDone, "forbidden call: "+name)
+				i.forbidden(name, why, caller)
 			}
 		}
 		if fn.Blocks == nil {
@@ -864,6 +870,15 @@ func (ld *Loaded) ForbiddenSites() []string {
 		}
 		for _, b := range fn.Blocks {
 			for _, in := range b.Instrs {
+				// any use of a standard stream other than standard output
+				for _, op := range in.Operands(nil) {
+					if op == nil || *op == nil {
+						continue
+					}
+					if g, ok := (*op).(*ssa.Global); ok && g.Pkg != nil && g.Pkg.Pkg.Path() == "os" && (g.Name() == "Stderr" || g.Name() == "Stdin") {
+						out = append(out, "use of os."+g.Name()+" called from "+fn.String()+" at "+ld.Prog.Fset.Position(in.Pos()).String())
+					}
+				}
 				var cc *ssa.CallCommon
 				switch x := in.(type) {
 				case *ssa.Call:
@@ -876,6 +891,10 @@ func (ld *Loaded) ForbiddenSites() []string {
 				if cc == nil {
 					continue
 				}
+				if b, ok := cc.Value.(*ssa.Builtin); ok && (b.Name() == "print" || b.Name() == "println") {
+					out = append(out, "builtin "+b.Name()+" called from "+fn.String()+" at "+ld.Prog.Fset.Position(in.Pos()).String())
+					continue
+				}
 				callee := cc.StaticCallee()
 				if callee == nil || callee.Pkg == nil || callee.Pkg.Pkg == nil {
 					continue
@@ -883,7 +902,7 @@ func (ld *Loaded) ForbiddenSites() []string {
 				if forbiddenPkg(callee.Pkg.Pkg.Path()) == "" || callee.Name() == "init" {
 					continue
 				}
-				if externals[callee.String()] != nil {
+				if externals[callee.String()] != nil && !driverOnly[callee.String()] {
 					continue // has a model (os.Getenv)
 				}
 				out = append(out, callee.String()+" called from "+fn.String()+" at "+ld.Prog.Fset.Position(in.Pos()).String())
@@ -910,12 +929,20 @@ func newInterpreter(ld *Loaded, w *Worker) *interpreter {
 		onceDone:           map[*value]bool{},
 		closedGlobal:       map[chan value]bool{},
 		zeroBase:           map[string]*value{},
+		stdStreams:         map[string]*value{},
 	}
 	for _, pkg := range i.prog.AllPackages() {
 		for _, m := range pkg.Members {
 			if v, ok := m.(*ssa.Global); ok {
 				cell := zero(mustDeref(v.Type()))
 				i.globals[v] = &cell
+				// os.init is not run: the three standard streams are distinct
+				// placeholder files (the fmt model tells them apart)
+				if pkg.Pkg.Path() == "os" && (v.Name() == "Stdin" || v.Name() == "Stdout" || v.Name() == "Stderr") {
+					f := zero(mustDeref(mustDeref(v.Type())))
+					cell = &f
+					i.stdStreams[v.Name()] = &f
+				}
 			}
 		}
 	}
